@@ -12,14 +12,18 @@ RegistryPoint + simple_file / glob_file / simple_command, filters registered wit
 collected twice in one process through TextFileProvider / CommandOutputProvider .write), `echo` (content c is
 cleaned, substitutes taken from that cleaning are put into c' = c + lines / tokens carrying them below, above and on
 the line of their original; c' is cleaned by a fresh Cleaner in a NEW process (a fork of the child taken before it
-has cleaned anything) and by fresh Cleaners #2, #3, #4 of the child after it has cleaned c).
+has cleaned anything) and by fresh Cleaners #2, #3, #4 of the child after it has cleaned c), `file` (the FILE entry
+point: a text is written to a path and Cleaner.clean_file is called on it 1-3 times; the bytes at the path after
+every call are compared with the model's cleanFile and with what clean_content gives for the lines read from the
+same text, written back the way clean_file writes them; one line as a string against a one-element list).
 Oracle (implementation only): two seeds that disagree on a case; an output line whose unique marker is
 missing, duplicated or out of order; an all-blank result returned or stored; a caller's object (allow list,
 filters cache, config, rm_conf, content list, no_obfuscate list) that differs from the deep copy taken before
 the call; a repetition of the same cleaning in a fresh Cleaner that differs from the first; a fresh Cleaner of a
 process that has cleaned before that differs from a fresh Cleaner in a new process; a container (dict / list / set
 held by a module global, class attribute or default argument of insights.cleaner.*) whose contents differ from
-the snapshot taken at import.
+the snapshot taken at import; a path whose bytes after clean_file are not exactly the cleaned lines (stale bytes of
+the old content, a link followed, an empty result left behind) or whose lines are out of order / without a source.
 """
 import copy
 import json
@@ -273,9 +277,117 @@ def run_echo(case, pristine):
     return {"c2": c2, "runs": [pristine] + same}
 
 
+MAX_LINE = 1048576
+
+
+def split_keepends(t):
+    """fh.readlines() of a text without carriage returns"""
+    parts = t.split("\n")
+    return [x + "\n" for x in parts[:-1]] + ([parts[-1]] if parts[-1] else [])
+
+
+def poly_hash(t):
+    h = 7
+    for c in t:
+        h = (h * 131 + ord(c)) % 2305843009213693951
+    return h
+
+
+def digest(t):
+    """long texts travel as length + checksum + both ends"""
+    if isinstance(t, str) and len(t) > 20000:
+        return {"len": len(t), "poly": poly_hash(t), "head": t[:120], "tail": t[-120:]}
+    return t
+
+
+def rle_segments(t):
+    """protocol form of a long text: runs of one character are sent as (character, count)"""
+    segs, i, n, lit = [], 0, len(t), []
+    while i < n:
+        j = i
+        while j < n and t[j] == t[i]:
+            j += 1
+        if j - i >= 64:
+            if lit:
+                segs.append("S:" + enc("".join(lit)))
+                lit = []
+            segs.append("R:%x:%d" % (ord(t[i]), j - i))
+        else:
+            lit.append(t[i:j])
+        i = j
+    if lit:
+        segs.append("S:" + enc("".join(lit)))
+    return segs
+
+
+def run_file(case, tmp):
+    """the FILE entry point against clean_content on the lines read from the same text (and a string against a list)"""
+    cfg, call, text = case["cfg"], case["call"], case["text"]
+    d = os.path.join(tmp, "f%d" % case["id"], "etc")
+    os.makedirs(d)
+    path, target = os.path.join(d, "the_spec"), os.path.join(d, "target")
+    with open(target if case.get("link") else path, "wb") as fh:
+        fh.write(text.encode("utf-8"))
+    if case.get("link"):
+        os.symlink(target, path)
+    kw = lambda: {"no_obfuscate": list(call["no_obfuscate"]), "no_redact": bool(call["no_redact"]),
+                  "allowlist": None if call["allowlist"] is None else dict(call["allowlist"])}
+
+    def state():
+        if os.path.islink(path):
+            return "<link>" if open(target, "rb").read().decode("utf-8") == text else "<link: target changed>"
+        if not os.path.exists(path):
+            return None
+        with open(path, "rb") as fh:
+            return fh.read().decode("utf-8", "replace")
+    cl = c09.mk_cleaner(cfg)
+    states, order = [], None
+    prev = text
+    for r in range(case["repeats"]):
+        try:
+            cl.clean_file(path, **kw())
+        except Exception as e:
+            states.append(c09.RAISED)
+            break
+        cur = state()
+        states.append(cur)
+        if order is None and isinstance(cur, str) and isinstance(prev, str) and not cur.startswith("<link") \
+                and not any(len(l) > MAX_LINE for l in split_keepends(prev)):
+            v = subsequence_violation([l.rstrip("\n") for l in split_keepends(prev)], [l.rstrip("\n") for l in split_keepends(cur)])
+            if v:
+                order = "after clean_file call %d: %s" % (r + 1, v)
+        prev = cur
+    maps = maps_json(cl)
+    # the same text through clean_content, written back the way clean_file writes
+    via = []
+    if not case.get("link"):
+        cl2, cur = c09.mk_cleaner(cfg), text
+        for r in range(case["repeats"]):
+            lines = split_keepends(cur) if cur is not None else []
+            if lines:
+                try:
+                    out = cl2.clean_content(lines, **kw())
+                except Exception:
+                    via.append(c09.RAISED)
+                    break
+                cur = "".join(out) if out else None
+            via.append(cur)
+    # one line as a string and as a one-element list
+    single = None
+    lines0 = split_keepends(text)
+    if len(lines0) == 1 and len(lines0[0]) < 5000:
+        try:
+            single = [c09.mk_cleaner(cfg).clean_content(lines0[0], **kw()), c09.mk_cleaner(cfg).clean_content([lines0[0]], **kw())]
+        except Exception:
+            single = None
+    return {"file": [digest(x) for x in states], "content": [digest(x) for x in via], "maps": maps, "single": single, "order": order}
+
+
 def run_case(case, tmp, pristine=None):
     if case["kind"] == "echo":
         return run_echo(case, pristine)
+    if case["kind"] == "file":
+        return run_file(case, tmp)
     if case["kind"] == "hist":
         return run_hist(case)
     if case["kind"] == "glue":
@@ -531,6 +643,14 @@ def glue_allow(case):
 
 def model_lines(case):
     kind = case["kind"]
+    if kind == "file":
+        call = case["call"]
+        ls = [c09.sha_line(set([case["cfg"]["fqdn"]]) | c09.hextets(case["text"].split("\n") if len(case["text"]) < 100000 else [])),
+              c09.init_line(case["cfg"]),
+              "fset\tL" if case.get("link") else "fset\t" + enc(case["text"]) if len(case["text"]) < 20000 else
+              "fsetr\t" + "\t".join(rle_segments(case["text"]))]
+        ls += ["cfile\t%s\t%d\t%s" % (c09.enc_l(call["no_obfuscate"]), call["no_redact"], c09.enc_allow(call["allowlist"]))] * case["repeats"]
+        return ls + ["map"]
     if kind == "echo":
         c2 = case.get("_c2") or []
         return [c09.sha_line(set([case["cfg"]["fqdn"]]) | c09.hextets(c2)), c09.init_line(case["cfg"]),
@@ -580,6 +700,13 @@ def model_maps(ans):
 def model_result(case, ans):
     """ans = the driver's answers to model_lines(case)"""
     kind = case["kind"]
+    if kind == "file":
+        st = []
+        for a in ans[3:3 + case["repeats"]]:
+            f = a.split("\t")
+            st.append(None if a == "N" else "<link>" if a == "L" else dec(f[1]) if f[0] == "F" else
+                      {"len": int(f[1]), "poly": int(f[2]), "head": dec(f[3]), "tail": dec(f[4])} if f[0] == "G" else "<%s>" % a)
+        return {"file": st, "maps": model_maps(ans[3 + case["repeats"]])}
     if kind == "echo":
         one = {"out": c09.model_out(ans[2]), "maps": model_maps(ans[3])}
         return {"c2": case.get("_c2") or [], "runs": [one] * 4}
@@ -598,6 +725,8 @@ def tie_view(case, res):
     """the part of a child's answer that the model predicts"""
     kind = case["kind"]
     res = dict((k, v) for k, v in res.items() if k != "globals")
+    if kind == "file":
+        return {"file": res["file"], "maps": res["maps"]}
     if kind == "hist":
         return {"outs": res["outs"], "maps": res["maps"]}
     if kind == "glue":
@@ -640,6 +769,20 @@ def order_violation(case, res):
     kind = case["kind"]
     if res.get("globals"):
         return "containers of insights.cleaner.* differ from their state at import after this case: %s" % ", ".join(res["globals"])
+    if kind == "file":
+        if res["order"]:
+            return res["order"]
+        if not case.get("link") and res["file"] != res["content"]:
+            return ("clean_file leaves %s at the path, clean_content on the lines read from the same text gives %s (states after each "
+                    "of the %d calls)" % (json.dumps(res["file"], ensure_ascii=False)[:500],
+                                           json.dumps(res["content"], ensure_ascii=False)[:500], case["repeats"]))
+        if case.get("link") and any(x != "<link>" for x in res["file"]):
+            return "clean_file touched a symbolic link: %r" % (res["file"],)
+        if res["single"] is not None:
+            one, lst = res["single"]
+            if (lst != [] if one in (None, "") else lst != [one]):
+                return "clean_content(line) = %r but clean_content([line]) = %r" % (one, lst)
+        return None
     if kind == "echo":
         runs = res["runs"]
         for k in (1, 2, 3):
@@ -718,6 +861,8 @@ def finding_of(case):
 
 
 def case_lines(case):
+    if case["kind"] == "file":
+        return case["text"][:2000].split("\n")
     if case["kind"] == "echo":
         return case["lines"]
     if case["kind"] == "hist":
@@ -749,13 +894,52 @@ def gen_echo(rng, i):
     return {"id": i, "kind": "echo", "cfg": cfg, "lines": lines, "recipe": recipe}
 
 
+LONG_KEYWORD = "averyveryverylongkeywordvalue_0123456789"
+FILE_PIECES = PIECES + [LONG_KEYWORD, LONG_KEYWORD + "x", "a-very-long-host-name-label.with.many.labels.example.org",
+                        "another-quite-long-host-name.example.org", "1.2.3.4", "9.9.9.9", "DROP", "DROP this line", "keep"]
+
+
+def gen_file(rng, i, long_line=False):
+    fqdn = rng.choice(["myhost.example.org", "web01.example.org", "gw.internal"])
+    obf = 1 if rng.random() < 0.9 else 0
+    cfg = {"fqdn": fqdn, "obfuscate": obf, "ipv6": 1 if rng.random() < 0.5 else 0,
+           "hostname": 1 if obf and rng.random() < 0.85 else 0, "mac": 1 if rng.random() < 0.85 else 0,
+           "keywords": rng.choice([None, [LONG_KEYWORD], [LONG_KEYWORD, "secret"], ["host"], ["keep", "up"]]),
+           "patterns": rng.choice([[], [], ["DROP"], ["DROP", "via"], ["@"]])}
+    no = rng.sample(ALL_OBF, rng.randrange(1, 4)) if rng.random() < 0.25 else []
+    al = None
+    if rng.random() < 0.2:
+        al = dict((w, rng.choice([1, 2, 3])) for w in rng.sample(["link", "keep", "@1@", "10.", "example", "e"], rng.randrange(0, 3)))
+    lines = []
+    for j in range(rng.choice([0, 1, 1, 2, 3, 5, 8])):
+        if rng.random() < 0.1:
+            lines.append("")
+        else:
+            lines.append("@%d@ %s" % (j, " ".join(rng.choice(FILE_PIECES) for _ in range(rng.choice([1, 2, 3, 4])))))
+    if long_line:
+        cfg.update({"obfuscate": 0, "hostname": 0, "keywords": ["tailkw", "head"], "patterns": []})
+        no, al = ["password"], None
+        big = "@%d@ head " % len(lines) + "#" * (MAX_LINE + rng.randrange(0, 40)) + " tailkw"
+        lines.insert(rng.randrange(len(lines) + 1), big)
+    text = "\n".join(lines)
+    if lines and rng.random() < 0.55:
+        text += "\n"
+    case = {"id": i, "kind": "file", "cfg": cfg, "text": text, "repeats": rng.choice([1, 1, 2, 3]),
+            "call": {"no_obfuscate": no, "no_redact": 1 if rng.random() < 0.2 else 0, "allowlist": al}}
+    if rng.random() < 0.03 and not long_line:
+        case["link"] = 1
+    return case
+
+
 def gen_any(rng, i):
     k = rng.random()
-    if k < 0.12:
+    if k < 0.10:
+        return gen_file(rng, i)
+    if k < 0.20:
         return gen_echo(rng, i)
-    if k < 0.45:
+    if k < 0.50:
         return gen_hist(rng, i)
-    if k < 0.55:
+    if k < 0.62:
         return gen_glue(rng, i)
     return gen_case(rng, i)
 
@@ -779,7 +963,11 @@ def run(chk):
     quick = chk.tier == "quick"
     n_cases = 700 if quick else 3000
     seeds = list(range(12 if quick else 256))
-    chk.rule = ("five kinds of case, each starting from fresh Cleaners. echo (12%): 1-5 multi-item lines c; 2-6 substitutes that "
+    chk.rule = ("six kinds of case, each starting from fresh Cleaners. file (10% + one case with a line over 1 MiB): a text of 0-8 "
+                "marker-prefixed lines (long keywords / host names that shrink, short addresses that grow, blank lines, lines dropped by "
+                "patterns or a small allow list, all lines dropped, empty file, symbolic link) with and without trailing newline is "
+                "written to a path and clean_file is called 1-3 times; the bytes after every call are compared with the model and with "
+                "clean_content on the lines read from the same text. echo (12%): 1-5 multi-item lines c; 2-6 substitutes that "
                 "cleaning c issued (MAC, IPv4, IPv6, host, keyword) are placed on lines below / above / on the line of their original; "
                 "c' is cleaned in a new process (fork of the still pristine child) and by fresh Cleaners #2-#4 of the child after it "
                 "cleaned c, all four compared with each other, across seeds and with the model; after EVERY case the containers of "
@@ -813,6 +1001,7 @@ def run(chk):
     corpus = load_corpus()
     cases = [c for _, c in corpus]
     n_corpus = len(cases)
+    cases += [gen_file(rng, 0, long_line=True) for _ in range(1 if quick else 3)]
     cases += [gen_any(rng, 0) for _ in range(n_cases)]
     for i, c in enumerate(cases):
         c["id"] = i
@@ -849,6 +1038,15 @@ def run(chk):
             chk.count("hist:issued", sum(len(v) for v in r0["maps"][-1].values()))
             if c["allowlists"]:
                 chk.count("hist:shared-allowlist")
+        elif c["kind"] == "file":
+            t0, t1 = c["text"], r0["file"][0] if r0["file"] else None
+            n1 = t1["len"] if isinstance(t1, dict) else len(t1) if isinstance(t1, str) and not t1.startswith("<") else None
+            chk.count("file:" + ("link" if c.get("link") else "empty-left" if t0 == "" else "removed" if t1 is None else
+                                 "raised" if n1 is None else "shorter" if n1 < len(t0) else "same-length" if n1 == len(t0) else "longer"))
+            chk.count("file:trailing-newline" if t0.endswith("\n") else "file:no-trailing-newline")
+            chk.count("file:calls=%d" % c["repeats"])
+            if len(t0) > MAX_LINE:
+                chk.count("file:line-over-1MiB")
         elif c["kind"] == "echo":
             chk.count("echo:substitutes-in-content", sum(1 for l in r0["c2"] if "copied" in l or "seen" in l))
         elif c["kind"] == "glue":
